@@ -58,11 +58,7 @@ def run(ctx) -> None:
     def branch_atom_bf() -> BF:
         """BF (over get_tags' atoms) that is true iff scope == BRANCH."""
         for a in pc.atoms:
-            tree = ast.parse(a, mode="eval").body
-            if isinstance(tree, ast.Name):
-                d = shapes.single_def(gt, tree.id)
-                if d is not None:
-                    tree = d
+            tree = shapes.inline(gt, ast.parse(a, mode="eval").body, prog)
             cs = shapes.compare_shape(tree)
             if cs and cs[0] in ("==", "!="):
                 sides = {unparse(cs[1]), unparse(cs[2])}
@@ -106,26 +102,24 @@ def run(ctx) -> None:
     upc = PathCond(ucfg)
     p_cfg = uc.params[0]
     tagvar = None
-    for n in walk_no_nested(uc.node):
-        if isinstance(n, ast.Assign) and isinstance(n.value, ast.Call) and len(n.targets) == 1 and isinstance(n.targets[0], ast.Name):
-            t = prog.resolve_call(uc, n.value, count=False)
+    for st, tg, val in shapes.iter_assigns(uc.node):
+        if isinstance(val, ast.Call) and isinstance(tg, ast.Name):
+            t = prog.resolve_call(uc, val, count=False)
             if t.fn is not None and t.fn.fq == "cli.get_latest_vcs_version_tag":
-                tagvar = n.targets[0].id
-                ctx.check("R1", [unparse(a) for a in n.value.args] == [p_cfg, uc.params[1]],
+                tagvar = tg.id
+                ctx.check("R1", [unparse(a) for a in val.args] == [p_cfg, uc.params[1]],
                           "_update_cfg_from_vcs: latest tag looked up with (cfg, fetch)", "cli._update_cfg_from_vcs: tag lookup arguments changed",
-                          unparse(n.value), loc=uc.loc(n))
+                          unparse(val), loc=uc.loc(st))
     ctx.require(tagvar is not None, "_update_cfg_from_vcs no longer calls get_latest_vcs_version_tag")
     NONE = LE = None
+    TAG = shapes.inline_text(uc, ast.Name(id=tagvar, ctx=ast.Load()), prog)
     scope_atoms: T.Dict[str, T.Tuple[str, bool]] = {}        # atom -> (member, polarity: atom true means scope == member)
     for a in upc.atoms:
         tree = ast.parse(a, mode="eval").body
         if a == f"{tagvar} is None":
             NONE = BF.var(a)
             continue
-        if isinstance(tree, ast.Name):
-            d = shapes.single_def(uc, tree.id)
-            if d is not None:
-                tree = d
+        tree = shapes.inline(uc, tree, prog)
         cs = shapes.compare_shape(tree)
         if cs is None:
             continue
@@ -138,9 +132,9 @@ def run(ctx) -> None:
         kl, kr = _keyed(prog, uc, l), _keyed(prog, uc, r)
         if kl is not None and kr is not None:
             tl, tr = unparse(kl), unparse(kr)
-            if tl == f"{p_cfg}.current_version" and tr == tagvar:
+            if tl == f"{p_cfg}.current_version" and tr in (tagvar, TAG):
                 op, tl, tr = shapes.mirror(op), tr, tl
-            if tl == tagvar and tr == f"{p_cfg}.current_version":
+            if tl in (tagvar, TAG) and tr == f"{p_cfg}.current_version":
                 if op in ("<=", "<"):
                     LE = BF.var(a)
                 elif op in (">", ">="):
@@ -168,7 +162,7 @@ def run(ctx) -> None:
                     keep = keep | upc.reach(n.id)
                 elif isinstance(v, ast.Call) and isinstance(v.func, ast.Attribute) and v.func.attr == "_replace" and unparse(v.func.value) == p_cfg:
                     kws = shapes.kwargs_of(v)
-                    ok = unparse(kws.get("current_version", ast.Constant(None))) == tagvar
+                    ok = unparse(kws.get("current_version", ast.Constant(None))) in (tagvar, TAG)
                     ctx.check("R1", ok, f"_update_cfg_from_vcs: replaced current_version is the newest tag `{tagvar}`",
                               "cli._update_cfg_from_vcs: replacement version is not the newest tag", unparse(v), loc=uc.loc(v))
                     pv = kws.get("pep440_version")
